@@ -36,7 +36,7 @@ type C05Scn struct {
 	// input" must not depend on what the process built in between: pooled or
 	// package-level builder state).
 	Poison string `json:"build_in_between,omitempty"`
-	Chunk     int        `json:"chunk"`
+	Chunk  int    `json:"chunk"`
 }
 
 func genC05(r *Rng, tier string) *C05Scn {
